@@ -323,6 +323,36 @@ def build(tier):
     s.add(m_out != m)
     rep.add(core.smt("C18/nesting-lemma", PROP, s, functions=("fpu.MXCSRRegister.__call__.context.__exit__",), text="if the body restores M then `enter; body; exit` restores M (from the enter/exit contracts): induction step for any nesting depth", kind="lemma", budget_s=30))
 
+    # --- the nesting lemma takes every context of the nest to be its own object; the SAME object entered again inside itself
+    #     (a recursive function decorated with fpu.context(...), or `with c: with c:`) is a nesting too: finite case, software register
+    def reentrant_case():
+        import functional_algorithms.fpu as F
+
+        cell = [0x1F80]
+        reg = F.MXCSRRegister()
+
+        def _get(ref):
+            ref._obj.value = cell[0]
+
+        def _set(ref):
+            cell[0] = ref._obj.value
+
+        reg._get_mxcsr, reg._set_mxcsr = _get, _set
+        c = reg(FZ=True, RN="up")
+        try:
+            with c:
+                outer = cell[0]
+                with c:
+                    pass
+                inner_restored = cell[0] == outer
+        except BaseException as e:
+            return False, dict(raised=repr(e), register_after=hex(cell[0]), register_before="0x1f80")
+        return bool(inner_restored and cell[0] == 0x1F80), dict(register_after=hex(cell[0]))
+
+    ok, det = reentrant_case()
+    rep.add(core.decided("C18/nesting/same-context-object-entered-twice", PROP, ok, functions=("fpu.MXCSRRegister.__call__.context.__enter__", "fpu.MXCSRRegister.__call__.context.__exit__"), text="`with c: with c:` (one context object nested in itself) restores the register at both exits and does not raise", detail=det, meta=dict(case="reentrant", detail=det)))
+    rep.replayers["C18/nesting/"] = lambda o: dict(replayed=True, witness_class="the same context object entered twice", detail=(o.meta or {}).get("detail"))
+
     # --- covers / canary
     s = z3.Solver()
     s.add(in_u32(M0), in_u32(M1), M0 != M1)
